@@ -491,9 +491,20 @@ func (f *wfam) call(ci ssa.CallInstruction, unknown map[string]bool) {
 		if isFuncParamValue(c.Value) {
 			return
 		}
+		// a function value chosen among named functions (dispatch through a variable): every candidate is applied
+		if cands := core.CalleeCandidates(c); len(cands) > 0 {
+			for _, cand := range cands {
+				f.callOne(ci, cand, args, res, unknown)
+			}
+			return
+		}
 		unknown[fmt.Sprintf("dynamic call of %s in %s", c.Value.Name(), core.FnName(ci.Parent()))] = true
 		return
 	}
+	f.callOne(ci, callee, args, res, unknown)
+}
+
+func (f *wfam) callOne(ci ssa.CallInstruction, callee *ssa.Function, args []ssa.Value, res ssa.Value, unknown map[string]bool) {
 	if f.inFam[callee] {
 		for i, a := range args {
 			if i < len(callee.Params) {
